@@ -246,6 +246,8 @@ def run_record_end(rep, facts):
                 rem_empty = (lab[0] == 'otherwise')
             elif pe[0] == 'call' and pe[1].endswith("is_empty") and self_field(pe[2][0], 'buffer'):
                 pass
+            elif pe[0] == 'discr' and ir.peel(pe[1])[0] == 'call' and ir.peel(pe[1])[1].endswith("::next"):
+                pass        # the pair decoder driven by an explicit loop instead of `extend(iterator)`
             else:
                 bad.append("unexpected condition %s" % ir.show(pe)[:60])
         ext = [c for c in r.calls if c[0].endswith("Extend>::extend") and self_field(c[1][0], 'buffer')]
